@@ -345,9 +345,15 @@ pub fn run(c: &Case, o: &mut Outcome) -> Result<(), Failure> {
     let sh2 = sh.clone();
     let others = c.others.clone();
     let comp = c.comp;
+    let rt_seed_for_knobs = c.rt_seed;
+    o.label_if(rt_seed_for_knobs % 4 == 0, "server_concurrency_limit_per_connection");
     let res = rt::run_virtual(c.rt_seed, Duration::from_secs(3600), async move {
         let server = tonic::transport::Server::builder();
         let mut server = server;
+        // a per-connection concurrency limit puts a readiness-dependent layer into the server stack
+        if rt_seed_for_knobs % 4 == 0 {
+            server = server.concurrency_limit_per_connection(1 + (rt_seed_for_knobs / 4 % 3) as usize);
+        }
         let router = if prost {
             let mut s = vt::test_server::TestServer::new(sh2.clone());
             if let Some(e) = comp {
